@@ -24,6 +24,7 @@
     p.fml a mask=0|1                                   `a._extract_first_middle_last(mask_extra=…)`
     p.lut                                              the 256-entry `_bit_count` table
     p.dump                                             `np.asarray` of every object, by name
+    p.drop a                                           forget the object `a` (`del a`)
 
   Observations: `ok`, `err <ExceptionClass>`, bit strings, numbers.
 -/
@@ -228,6 +229,10 @@ def stepPacked (w : PackedWorld) (op : String) (a : Args) : PackedWorld × Strin
   | "p.dump" =>
     let vs := w.views.mergeSort fun x y => !(y.1 < x.1)
     (w, showList (fun (x : String × PBA) => x.1 ++ "=" ++ showBits (toBools w.heap x.2)) vs)
+  | "p.drop" =>
+    match a.pos with
+    | n :: _ => ({ w with views := w.views.filter (·.1 != n) }, "ok")
+    | [] => bad "p.drop"
   | _ => (w, "bad-op:unknown-packed-op:" ++ op)
 
 end HS
